@@ -1,5 +1,6 @@
 import TantivyModel.Proofs.Bm25
 import TantivyModel.Proofs.Bm25Q
+import TantivyModel.Proofs.Bm25Tree
 /-!
 # C12 — Relevance scores are BM25 over the searcher's statistics; explain agrees
 
@@ -205,5 +206,114 @@ example : fieldnormToId (idToFieldnorm 100 + 1) = 100 ∧ idToFieldnorm 100 + 1 
   decide +kernel
 example : BoostFree (QTree.sum [QTree.term 3 2 1, QTree.const (QTree.term 1 1 1) (0 : Nat)] : QTree Nat) :=
   .sum _
+
+/-! ## the dis-max combiner; explain on every tree (exact arithmetic) -/
+
+/-- exact integer arithmetic (scores scaled to integers): an instance in which the laws of exact
+arithmetic hold; `div` and `ln` are irrelevant to the theorems below -/
+instance intArith : Arith Int where
+  ofNat := Int.ofNat
+  add := (· + ·)
+  sub := (· - ·)
+  mul := (· * ·)
+  div := (· / ·)
+  ln := id
+  max := max
+  half := 0
+  isOne := (· == 1)
+
+theorem intArith_addMax : AddMaxLaws Int where
+  add_comm := Int.add_comm
+  add_assoc := Int.add_assoc
+  max_comm := Int.max_comm
+  max_assoc := Int.max_assoc
+
+theorem intArith_exact : ExactLaws Int where
+  isOne_one := by decide
+  isOne_eq x h := by
+    have : x = 1 := by simpa [Arith.isOne] using h
+    subst this; rfl
+  one_mul := Int.one_mul
+  mul_comm := Int.mul_comm
+  mul_assoc := Int.mul_assoc
+  add_mul := Int.add_mul
+  sub_mul := Int.sub_mul
+  zero_mul := Int.zero_mul
+
+/-- every non-negative factor commutes with `max` -/
+theorem intArith_maxCompat (b : Int) (hb : 0 ≤ b) : MaxCompat b := by
+  intro x y
+  show max (x * b) (y * b) = max x y * b
+  rcases Int.le_total x y with h | h
+  · rw [Int.max_eq_right h, Int.max_eq_right (Int.mul_le_mul_of_nonneg_right h hb)]
+  · rw [Int.max_eq_left h, Int.max_eq_left (Int.mul_le_mul_of_nonneg_right h hb)]
+
+/-- The score of a `DisjunctionMaxQuery` node is `DisjunctionMaxCombiner` run over the matching
+clauses: start from `(max, sum) = (0, 0)`, `update` with each clause score in clause order
+(`max = Score::max(score, max); sum += score`), then `score() = max + (sum − max) · tie_breaker`
+(the combiner's three methods are checked against the source by the extractor,
+`Gen.DISMAX_COMBINER_SHAPE`). In every arithmetic — also `f32`. -/
+theorem C12_dismax_is_combiner_run {F : Type} [Arith F] (s : Stats) (qs : List (QTree F)) (tie boost : F) :
+    score s (.dismax qs tie) boost
+      = ((qs.map (score s · boost)).foldl DisMaxState.update DisMaxState.init).score tie :=
+  dismax_eq_combiner s qs tie boost
+
+example : score (F := Int) ⟨10, 50⟩ (.dismax [.const (.term 1 1 1) 3, .const (.term 1 1 1) 7, .const (.term 1 1 1) 5] 2) 1
+    = 7 + (15 - 7) * 2 := by decide
+
+/-- … and it does not depend on the order of the clauses: `max + tie·(sum − max)` of the same
+clause scores in any order — in every arithmetic whose `+` and `max` are commutative and
+associative (exact arithmetic; in `f32` `max` is, `+` is commutative only: the order can change
+the rounding of the sum, nothing else). A combiner that loses a clause score in `update` (the
+seeded change C12-C dropped the previous maximum from the sum) breaks `C12_dismax_is_combiner_run`
+at the extracted shape. The same for a boolean sum. -/
+theorem C12_dismax_order_independent {F : Type} [Arith F] (hF : AddMaxLaws F) (s : Stats)
+    (qs qs' : List (QTree F)) (h : qs ~ qs') (tie boost : F) :
+    score s (.dismax qs tie) boost = score s (.dismax qs' tie) boost :=
+  dismax_perm hF s h tie boost
+
+theorem C12_sum_order_independent {F : Type} [Arith F] (hF : AddMaxLaws F) (s : Stats)
+    (qs qs' : List (QTree F)) (h : qs ~ qs') (boost : F) :
+    score s (.sum qs) boost = score s (.sum qs') boost :=
+  sum_perm hF s h boost
+
+example : score (F := Int) ⟨10, 50⟩ (.dismax [.const (.term 1 1 1) 3, .const (.term 1 1 1) 7] 2) 1
+    = score (F := Int) ⟨10, 50⟩ (.dismax [.const (.term 1 1 1) 7, .const (.term 1 1 1) 3] 2) 1 :=
+  C12_dismax_order_independent intArith_addMax _ _ _ (Perm.swap _ _ _) _ _
+
+/-- A boost factors out of EVERY query tree — terms, phrases, const-score, boolean sums, dis-max,
+nested boosts: `weight.scorer(reader, β)` scores `β` times what `weight.scorer(reader, 1.0)`
+scores — in exact arithmetic (`ExactLaws`) and for boosts that commute with `max` (every
+non-negative boost, `intArith_maxCompat`; a NEGATIVE boost below a dis-max does not: the maximum
+becomes a minimum). -/
+theorem C12_boost_factors_out {F : Type} [Arith F] (hF : ExactLaws F) (s : Stats) (q : QTree F)
+    (hq : GoodBoosts q) (β : F) (hβ : MaxCompat β) : score s q β = Arith.mul (score s q one) β :=
+  score_lin hF s q hq β hβ
+
+/-- FULL explain agreement in exact arithmetic: `Weight::explain(..).value()` equals the score for
+every query tree, boosts anywhere (`BoostWeight::explain` multiplies the unboosted value afterwards
+where the scorer multiplies the weight first — the same number exactly, a different rounding in
+`f32`: the harness compares within 4 ulp per unit there). Extends `C12_explain_value` (boost-free
+trees, every arithmetic) and `C12_explain_value_boost_partial` (a boosted term). -/
+theorem C12_explain_value_exact {F : Type} [Arith F] (hF : ExactLaws F) (s : Stats) (q : QTree F)
+    (hq : GoodBoosts q) : explainValue s q = score s q one :=
+  explain_eq_score hF s q hq
+
+/-- a boosted dis-max of a boosted term and a const clause below a boolean sum, over `Int` -/
+example : explainValue (F := Int) ⟨10, 50⟩
+      (.sum [.boost (.dismax [.boost (.const (.term 1 1 1) 3) 2, .const (.term 1 1 1) 4] 1) 5, .const (.term 2 1 1) 1])
+    = score (F := Int) ⟨10, 50⟩
+      (.sum [.boost (.dismax [.boost (.const (.term 1 1 1) 3) 2, .const (.term 1 1 1) 4] 1) 5, .const (.term 2 1 1) 1]) one :=
+  C12_explain_value_exact intArith_exact _ _ (by
+    simp only [GoodBoosts, GoodBoostsL, and_true, true_and]
+    exact ⟨intArith_maxCompat 5 (by decide), intArith_maxCompat 2 (by decide)⟩)
+
+/-- the hypothesis on the boosts is needed: with the boost −1 the maximum of the boosted clauses is
+the boosted MINIMUM of the clauses -/
+theorem C12_negative_boost_not_max_compatible : ¬ MaxCompat (-1 : Int) := by
+  intro h
+  have := h 1 2
+  revert this
+  decide
 
 end TantivyModel.C12
